@@ -25,6 +25,12 @@ func c10Abstract(c *core.Ctx) {
 	c10Bounds(c)
 	c10Descriptors(c)
 	c10FunctionPositions(c)
+	c.Rule("ORDABS.group-by-keys-are-variables", "the grouping code asserts that every group_by key is a variable: RewriteClause and CheckRule, read from source and evaluated on aggregating clauses whose group_by names a constant next to a variable (every one- and two-premise body of the C04 family), reject every such clause (obligation shared with C04)", 2)
+	c.Under("ORDABS.group-by-keys-are-variables", []string{rC04Perm, rC04Safe, rC04Eval}, func() {
+		c04OnlyHead = 6
+		defer func() { c04OnlyHead = -1 }()
+		c04Corpus(c)
+	})
 }
 
 func c10Unescape(c *core.Ctx) {
